@@ -1166,7 +1166,16 @@ class Discharger:
         node = cfg.node_containing(n)
         if node is not None and isinstance(n.value, ast.Attribute):
             stores = [m for m in cfg.live if m.kind == "stmt" and isinstance(m.ast, (ast.Assign, ast.AnnAssign)) and any(src(t) == bs for t in (m.ast.targets if isinstance(m.ast, ast.Assign) else [m.ast.target]))]
-            if stores and all(isinstance(m.ast.value, ast.Call) for m in stores) and any(cfg.dominates(m, node) and m is not node for m in stores):
+            def built(v: ast.AST) -> bool:
+                # a constructor / call result, directly or through a local that was bound once to one
+                if isinstance(v, ast.Call):
+                    return True
+                if isinstance(v, ast.Name):
+                    ds = [m2.ast.value for m2 in cfg.live if m2.kind == "stmt" and isinstance(m2.ast, (ast.Assign, ast.AnnAssign)) and getattr(m2.ast, "value", None) is not None and any(isinstance(t, ast.Name) and t.id == v.id for t in (m2.ast.targets if isinstance(m2.ast, ast.Assign) else [m2.ast.target]))]
+                    return len(ds) == 1 and isinstance(ds[0], ast.Call) and v.id not in f.params
+                return False
+
+            if stores and all(built(m.ast.value) for m in stores) and any(cfg.dominates(m, node) and m is not node for m in stores):
                 return f"`{bs}` was assigned a constructor result earlier in this function"
         # raise-guard: `if not isinstance(x, T): raise` dominating
         if node is not None:
